@@ -24,7 +24,7 @@ def jobs(tier, seed):
             out.append({"suite": su, "shard": sh, "n": n // shards, "seed": seed, "cost": okv.suite_cost(su) * n / shards,
                         "big": sh == 0})
     for su in okv.SUITES20:
-        out.append({"suite": su + ":id", "shard": 0, "n": 12 if tier == "quick" else 200, "seed": seed,
+        out.append({"suite": su + ":id", "shard": 0, "n": 100 if tier == "quick" else 400, "seed": seed,
                     "cost": okv.suite_cost(su), "big": False})
     for su in okv.ARGON_SUITES:
         out.append({"suite": su, "shard": 0, "n": 4 if tier == "quick" else 24, "seed": seed, "cost": 400, "big": False})
@@ -140,8 +140,12 @@ def run_job(job):
             if tapes == "same-seed":
                 # both parties start the login from identically seeded generators (draws of equal sizes then coincide)
                 rng_c, rng_s = s.rng("rc", proto.H(wseed, "login")), s.rng("rs", proto.H(wseed, "login"))
+            # an honest run may be interrupted: both parties save and restore their in-flight login state in most worlds
+            persist = ["native", None, "native", "bincode", "native", "json", "native"][wi % 7]
+            case["persist"] = persist
+            stats["by_class"]["persist:%s" % persist] = stats["by_class"].get("persist:%s" % persist, 0) + 1
             lg = proto.login(s, rng_c, rng_s, "S", reg.file_h, pw[1], cred[1], ctx_c=ctx[1], ctx_s=ctx[1], id_u_c=lu, id_s_c=ls,
-                             id_u_s=lu, id_s_s=ls, ksf=ksf, wire=wire, tag="l", params_via=via)
+                             id_u_s=lu, id_s_s=ls, ksf=ksf, wire=wire, tag="l", params_via=via, persist=persist)
             evals += len(lg.steps)
             stats["worlds"] += 1
             if not lg.ok:
